@@ -760,7 +760,14 @@ def clauses_c09(ex, obs) -> list:
                     if comps <= {"created", "deleted"}:
                         # types it introduces or stops using - but a type that a stored
                         # entity still links to has not stopped being used
-                        users = [k for k, v in obs["d"][wsn].items() if k[0] == "node" and v.get("type") == key[2]]
+                        users = [
+                            k
+                            for k, v in obs["d"][wsn].items()
+                            if k[0] == "node" and v.get("type") == key[2]
+                            # nodes left behind by parent.remove_children are not stored entities
+                            # any more (C02 / C05 finding): their dangling type link is part of it
+                            and not fate_any_removed_through_parent(ex, wsn, k[2])
+                        ]
                         if comps == {"deleted"} and users:
                             out.append(("only-the-footprint-changes", f"{op[0]}:type-deleted-while-still-used:{key[1]}",
                                         {"op": op, "ws": wsn, "type": key[2], "users": [str(u) for u in users][:3], "results": ex.results[-4:]}))
